@@ -19,7 +19,7 @@ PIECES = [
     "#Title;",
     "\n",
     "#VERSION:0.83;",
-    "#version:1;",
+    "#vers\u0131on:1;",  # lower case with a dotless i: upper() gives VERSION, casefold() does not give version
     "#ATTACKS:x:y;",
     "#attacks;",
     "#DISPLAYBPM:1:2;",
@@ -243,7 +243,7 @@ VOCABULARY = [
     "Beginner", "Easy", "Medium", "Hard", "Challenge", "Edit", "basic", "light", "another", "trick", "standard", "difficult",
     "ssr", "maniac", "heavy", "smaniac", "oni", "ONI", "expert", "dance-single", "pump-routine", "YES", "NO",
     # attack / timing syntax
-    "TIME=1.000:LEN=2.000:MODS=drunk", ": TIME=", ":\nTIME=1", "a:TIME=", "TIME=1:END=2:MODS=a:TIME=3:LEN=1:MODS=b", "0.000=4=4", "0.000=Song Start", "0.000=song start",
+    "TIME=1.000:LEN=2.000:MODS=drunk", "a\\:b:c", ": TIME=", ":\nTIME=1", "a:TIME=", "TIME=1:END=2:MODS=a:TIME=3:LEN=1:MODS=b", "0.000=4=4", "0.000=Song Start", "0.000=song start",
     # numbers in other spellings
     "1E1", "1e+1", "1.2E+2", "1_0", "0x10", "\u0661\u0662", "NaN", "inf", "-0", "+1", ".5", "0.5", "0.69", "0.7", "0.70", "0.73", "0.74", "1", "01", "1.",
     # entity and escape look-alikes
